@@ -7,6 +7,9 @@ def main : IO Unit := Bee2V.Proto.runLoop fun
   | "trace" :: args => handleIr g64 true args
   | "sf" :: args => handleSf g64 args
   | "stepv" :: args => handleStepV g64 args
+  | "irx" :: args => handleIr gx false args
+  | "stepvx" :: args => handleStepVX args
+  | "kwp" :: args => handleKwp args
   | "ir32" :: args => handleIr g32 false args
   | "trace32" :: args => handleIr g32 true args
   | "sf32" :: args => handleSf g32 args
